@@ -280,8 +280,19 @@ func seqReplay(req string) string {
 
 func init() {
 	run.Register(&run.Stream{
-		Name:   "seq",
-		Corpus: seqCorpus,
+		Name:         "seq",
+		Corpus:       seqCorpus,
+		SpecProperty: "C01",
+		SpecWitness: func(c run.Case, _ string) string {
+			// class of the disagreeing step: the driver method, or "dump" for a state difference
+			if i := strings.Index(c.Req, `"m":"`); i >= 0 {
+				rest := c.Req[i+5:]
+				if j := strings.Index(rest, `"`); j >= 0 {
+					return "seq:" + rest[:j]
+				}
+			}
+			return "seq:state"
+		},
 		Rule: "the histories of stream api (1–25 driver calls on lungo.Open(MemoryStore), same generator and canonicalisers) compared with the sequential reference model " +
 			"Lungo.Spec.SeqDB (C01's Spec: document lists + index definitions, no index entries, identities or oplog): every reply (counts, ids, documents, error class) and, after every call, " +
 			"the documents of every user namespace in natural order and the index definitions; a call whose filter raises an error on SOME stored document of its collection is outside the Spec's domain " +
